@@ -3,7 +3,7 @@
 (declare-const u16_1 (_ BitVec 16))
 (declare-const b_2 (_ BitVec 8))
 (push 1)
-(define-fun t!5735249 () Bool (= u16_1 (bvor (bvshl ((_ zero_extend 8) ((_ extract 7 0) (bvlshr u16_1 #x0008))) #x0008) ((_ zero_extend 8) ((_ extract 7 0) u16_1)))))
-(define-fun t!5735250 () Bool (not t!5735249))
-(assert t!5735250)
+(define-fun t!5735243 () Bool (= u16_1 (bvor (bvshl ((_ zero_extend 8) ((_ extract 7 0) (bvlshr u16_1 #x0008))) #x0008) ((_ zero_extend 8) ((_ extract 7 0) u16_1)))))
+(define-fun t!5735244 () Bool (not t!5735243))
+(assert t!5735244)
 (check-sat)
